@@ -495,6 +495,7 @@ def run(tier="quick", seed=0):
             failures.append(dict(label=case["label"], text=case["text"], clause=c, what=w))
     out_fail = []
     per = {}
+    shrink_deadline = time.time() + 90       # shrinking is a convenience: never let it dominate the run
     for f in failures:
         per[f["clause"]] = per.get(f["clause"], 0) + 1
         if per[f["clause"]] > 2 or len(out_fail) >= 10:
@@ -503,6 +504,8 @@ def run(tier="quick", seed=0):
         small = f["text"]
         if not clause.startswith("cli."):
             def still(t, clause=clause):
+                if time.time() > shrink_deadline:
+                    return False
                 with G.work_dir() as wd:
                     p = os.path.join(wd, "m.txt")
                     with open(p, "w", encoding="utf_8") as fh:
